@@ -109,6 +109,17 @@ def run(rep: common.Report, tier: str, seed: int, replay=None) -> int:
                           {"units": [lu, fu], "B": B})
         rep.count(len(m.elements))
         rep.nontrivial(("flux", lu, fu))
+    # ---------- the field helpers with positions / fields given as pint quantities in any unit ----------
+    from tdgl.em import uniform_Bz_vector_potential
+    pos_um = np.array([[rng.uniform(-3, 3), rng.uniform(-2, 2), 0.0] for _ in range(7)])
+    ref_A = np.asarray(uniform_Bz_vector_potential(pos_um * 1e-6, 0.7e-3).to("T * m").magnitude)        # metres, tesla as floats
+    for lu_, f_ in (("um", 1.0), ("nm", 1e3), ("mm", 1e-3), ("m", 1e-6)):
+        for Bq in (0.7 * ureg("mT"), "0.7 mT", 700.0 * ureg("uT"), 0.7e-3):
+            got_A = np.asarray(uniform_Bz_vector_potential((pos_um * f_) * ureg(lu_), Bq).to("T * m").magnitude)
+            if np.max(np.abs(got_A - ref_A)) > 1e-12 * float(np.max(np.abs(ref_A))):
+                rep.violation("uniform_Bz_vector_potential: the same positions / field stated in other units give another potential",
+                              {"length_units": lu_, "field": str(Bq), "max_rel": float(np.max(np.abs(got_A - ref_A)) / np.max(np.abs(ref_A)))})
+            rep.count(1)
     # ---------- the same physical problem in three unit systems ----------
     # matched and unmatched prefixes (uA/um = nA/nm = mA/mm = 1 A/m would hide a missing prefix conversion)
     systems = [("um", "mT", "uA"), ("nm", "uT", "nA"), ("mm", "T", "mA"), ("um", "T", "mA"), ("nm", "mT", "uA"),
